@@ -569,6 +569,10 @@ func (h *Hist) step() {
 		if h.cfg.Messages != nil {
 			return h.cfg.Messages(r)
 		}
+		// mostly plain; now and then text that is special to a formatter, a shell or a terminal
+		if r.chance(1, 4) {
+			return r.pick([]string{"100% done", "rate: 50% less io, %d files", "%s %v %q %%", "50%!", "tab\tin message", "ünï %x", "back\\slash", "$HOME `x` 'q'"}) + fmt.Sprint(r.intn(10))
+		}
 		return fmt.Sprintf("msg %d", r.intn(1000))
 	}
 	switch op {
@@ -726,7 +730,17 @@ func (h *Hist) step() {
 				ls = append(ls, "*."+r.pick([]string{"log", "tmp", "o", "c"}))
 			}
 		}
-		h.W("write", ".goitignore", []byte(strings.Join(ls, "\n")+"\n"))
+		// line ends as an editor on any platform leaves them: LF, CRLF, no final line break, a blank line in between
+		eol := r.pick([]string{"\n", "\n", "\n", "\r\n", "\r\n"})
+		body := strings.Join(ls, eol)
+		switch r.intn(4) {
+		case 0:
+		case 1:
+			body += eol + eol
+		default:
+			body += eol
+		}
+		h.W("write", ".goitignore", []byte(body))
 	case "ignore-probe":
 		// an ignored *file* with siblings that sort before and after it, in the root or in a directory,
 		// some of them tracked, followed by `status` (and `add <dir>`): what an ignored entry hides must
